@@ -1,7 +1,267 @@
+import LoraVerif.Gen.CmdTables
+import LoraVerif.Model.MacCmdFields
+import LoraVerif.Spec.MacCmdSpec
+import LoraVerif.Model.FrameShape
+import LoraVerif.Spec.FrameSpec
 import Driver.Util
-/-! Suite C03: line-protocol handlers (stub — replaced when the property's model is built). -/
+/-! Suite C03: command-stream iterators of the six generated tables (model = `MacCmd.run` over the
+table regenerated from the source, spec = `Spec.MacCmd.splitAll` over the specification's tables),
+payload accessors, checked payload constructors. -/
+open MacCmd
 namespace Driver.C03
 
-def handle (_ws : List String) : String := "bad-op"
+def hexOrDash (bs : List Nat) : String :=
+  if bs.isEmpty then "-" else hexOfBytes (bs.map (fun n => n.toUInt8))
+
+def natsOfHex? (s : String) : Option (List Nat) := (bytesOfHex? s).map (fun l => l.map (·.toNat))
+
+def hex2 (n : Nat) : String := hexByte n.toUInt8
+
+/-- the toy block cipher the harness plugs into the multicast key accessors
+(`encrypt_block`: add 1 to every octet, then rotate left by one; `decrypt_block` is its inverse) -/
+def toyEnc (b : List Nat) : List Nat := (b.map (fun x => (x + 1) % 256)).rotateLeft 1
+def toyDec (b : List Nat) : List Nat := (b.rotateRight 1).map (fun x => (x + 255) % 256)
+def toyCipher : Cipher := { enc := toyEnc, dec := toyDec }
+
+def showItems (l : List (Nat × List Nat)) : String :=
+  if l.isEmpty then "-" else "/".intercalate (l.map (fun (id, a) => s!"{id}:{hexOrDash a}"))
+
+def showVal : Val → String
+  | .n v => toString v
+  | .i v => toString v
+  | .b v => if v then "1" else "0"
+  | .hex v => hexOrDash v
+  | .err e => "ERR:" ++ e
+  | .none => "none"
+  | .items l => showItems l
+
+def showSpecVal : Spec.MacCmd.Val → String
+  | .n v => toString v
+  | .i v => toString v
+  | .b v => if v then "1" else "0"
+  | .hex v => hexOrDash v
+  | .err e => "ERR:" ++ e
+  | .none => "none"
+  | .items l => showItems l
+
+def showAccessors (l : List (String × Outcome Val)) : String :=
+  ",".intercalate (l.map (fun (n, v) => n ++ "=" ++ (match v with | .ok v => showVal v | .panic _ => "PANIC")))
+
+def showSpecAccessors (l : List (String × Spec.MacCmd.Val)) : String :=
+  ",".intercalate (l.map (fun (n, v) => n ++ "=" ++ showSpecVal v))
+
+def tableOf? (set : String) : Option Table :=
+  (Gen.CmdTables.allSets.find? (fun p => p.1 == set)).map (fun p => Table.ofRows p.2)
+
+def showItem : Item → String
+  | .cmd c => s!"{hex2 c.cid}:{c.variant}:{hexOrDash c.payload}" ++ "{" ++ showAccessors (accessors toyCipher c.payloadTy c.payload) ++ "}"
+  | .err (.unknownCid cid) => s!"ERR:unknown:{hex2 cid}"
+  | .err (.truncated cid) => s!"ERR:trunc:{hex2 cid}"
+
+/-- C03 judges totality, not field values: the one field on which the code is known to contradict the
+specification (DeviceTimeAns seconds are read MSB-first, known finding C19-devicetime-seconds, reported by
+`./check C19`) is printed here as the code reads it, so that C03 does not report the C19 finding again. -/
+def specDecodeC03 (ty : String) (p : List Nat) : List (String × Spec.MacCmd.Val) :=
+  (Spec.MacCmd.decode toyEnc ty p).map (fun (n, v) =>
+    if ty == "DeviceTimeAnsPayload" && n == "seconds" then (n, .n (Spec.MacCmd.leValue (p.take 4).reverse)) else (n, v))
+
+def showSpecItem : Spec.MacCmd.Item → String
+  | .cmd c p => s!"{hex2 c.cid}:{c.name}:{hexOrDash p}" ++ "{" ++ showSpecAccessors (specDecodeC03 (c.name ++ "Payload") p) ++ "}"
+  | .unknown cid => s!"ERR:unknown:{hex2 cid}"
+  | .truncated cid => s!"ERR:trunc:{hex2 cid}"
+
+def joinItems (l : List String) : String := if l.isEmpty then "-" else ";".intercalate l
+
+def modelIter (T : Table) (data : List Nat) : String :=
+  match run T varLen data with
+  | .panic _ => "PANIC"
+  | .ok r => if r.hang then "HANG" else s!"{joinItems (r.items.map showItem)} rest={hexOrDash r.final.data}"
+
+def specIter (T : List Spec.MacCmd.Cmd) (data : List Nat) : String :=
+  let (items, rest) := Spec.MacCmd.splitAll T data
+  s!"{joinItems (items.map showSpecItem)} rest={hexOrDash rest}"
+
+def fnvStr (h : Fnv) (s : String) : Fnv := (s.toUTF8.foldl (fun h b => h.byte b) h).byte 10
+
+/-- digest over all strings `prefix ++ s`, `s` ranging over the `256^k` strings of length `k`, in lexicographic order -/
+partial def digestAll (f : List Nat → String) (pre : List Nat) (k : Nat) (h : Fnv) : Fnv :=
+  if k = 0 then fnvStr h (f pre)
+  else Id.run do
+    let mut h := h
+    for b in [0:256] do
+      h := digestAll f (pre ++ [b]) (k - 1) h
+    return h
+
+def modelNew (T : Table) (ty : String) (data : List Nat) : String :=
+  match newPayload T ty data with
+  | .panic _ => "PANIC"
+  | .ok (.error e) => "ERR:" ++ e
+  | .ok (.ok p) => s!"{hexOrDash p}" ++ "{" ++ showAccessors (accessors toyCipher ty p) ++ "}"
+
+def specNew (T : List Spec.MacCmd.Cmd) (ty : String) (data : List Nat) : String :=
+  let name := if ty.endsWith "Payload" then (ty.dropEnd 7).toString else ty
+  match Spec.MacCmd.newPayload T name data with
+  | .error e => "ERR:" ++ e
+  | .ok p => s!"{hexOrDash p}" ++ "{" ++ showSpecAccessors (specDecodeC03 ty p) ++ "}"
+
+
+/-! ### frame parsers: `C03 frame <hex>` answers
+`parse=<P> data=<D> dec=<11>/<10>/<01>/<00> jr=<J> ja=<A> jad=<AD>` (see harness/src/c03_frames.rs) -/
+section Frames
+open FrameShape
+
+def bstr (b : Bool) : String := if b then "1" else "0"
+def optNat : Option Nat → String
+  | none => "none"
+  | some n => toString n
+
+def showDataView (v : DataView) : String :=
+  let up := v.frameType == 2 || v.frameType == 4
+  let conf := v.frameType == 4 || v.frameType == 5
+  let c := v.fctrl
+  "{" ++ s!"t={v.frameType},up={bstr up},conf={bstr conf},addr={hexOrDash v.devAddr},fctrl={c},adr={bstr (c &&& 0x80 != 0)},adrackreq={bstr (up && c &&& 0x40 != 0)},ack={bstr (c &&& 0x20 != 0)},fpending={bstr (!up && c &&& 0x10 != 0)},foptslen={c &&& 0x0f},fcnt={v.fcnt},fopts={hexOrDash v.fOpts},fport={optNat v.fPort},mic={hexOrDash v.mic},vmic={bstr (v.mic == [0, 0, 0, 0])}" ++ "}"
+
+def modelData (b : List Nat) : String :=
+  match validate b with
+  | .panic _ => "PANIC"
+  | .ok (.error e) => "ERR:" ++ e.name
+  | .ok (.ok l) =>
+    match dataAccessors b l with
+    | .panic _ => "PANIC"
+    | .ok v => showDataView v
+
+def modelDec (b : List Nat) (nwk app : Bool) : String :=
+  match decryptData b nwk app with
+  | .panic _ => "PANIC"
+  | .ok (.error e) => "ERR:" ++ e.name
+  | .ok (.ok l) =>
+    -- accessors of the returned view (its bytes differ from `b` only inside the FRMPayload range)
+    match dataAccessors b l with
+    | .panic _ => "PANIC"
+    | .ok v =>
+      let kind := match v.fPort with | none => "N" | some 0 => "M" | some _ => "D"
+      "{" ++ s!"fport={optNat v.fPort},kind={kind},len={v.frm.length},outside=1" ++ "}"
+
+def showCf : CfList → String
+  | .absent => "none"
+  | .rfu => "none"
+  | .dynamic fs => "dyn:" ++ "/".intercalate (fs.map hexOrDash)
+  | .fixed m => "fixed:" ++ hexOrDash m
+
+def modelJr (b : List Nat) : String :=
+  match parseJoinRequest b with
+  | .error e => "ERR:" ++ e.name
+  | .ok () =>
+    match joinRequestAccessors b with
+    | .panic _ => "PANIC"
+    | .ok v => "{" ++ s!"join_eui={hexOrDash v.joinEui},dev_eui={hexOrDash v.devEui},dev_nonce={hexOrDash v.devNonce},mic={hexOrDash v.mic},vmic={bstr (v.mic == [0, 0, 0, 0])}" ++ "}"
+
+def modelJa (b : List Nat) : String :=
+  match validateJoinAccept b with
+  | .error e => "ERR:" ++ e.name
+  | .ok () => "ok"
+
+def modelJad (b : List Nat) : String :=
+  match decryptJoinAccept toyCipher b with
+  | .panic _ => "PANIC"
+  | .ok (.error e) => "ERR:" ++ e.name
+  | .ok (.ok p) =>
+    match joinAcceptAccessors p with
+    | .panic _ => "PANIC"
+    | .ok v => "{" ++ s!"join_nonce={hexOrDash v.joinNonce},net_id={hexOrDash v.netId},dev_addr={hexOrDash v.devAddr},dl={v.dlSettings},rxdelay={v.rxDelay},cflist={showCf v.cfList},mic={hexOrDash v.mic},vmic={bstr (v.mic == [0, 0, 0, 0])},keys=ok" ++ "}"
+
+def modelParse (b : List Nat) : String :=
+  match parse b with
+  | .panic _ => "PANIC"
+  | .ok (.error e) => "ERR:" ++ e.name
+  | .ok (.ok .joinRequest) => "JR"
+  | .ok (.ok .joinAccept) => "JA"
+  | .ok (.ok (.data _)) => "DATA"
+
+def modelFrame (b : List Nat) : String :=
+  s!"parse={modelParse b} data={modelData b} dec={modelDec b true true}/{modelDec b true false}/{modelDec b false true}/{modelDec b false false} jr={modelJr b} ja={modelJa b} jad={modelJad b}"
+
+open Spec.Frame in
+def specShowData (d : Spec.Frame.Data) : String :=
+  let up := d.mtype = 2 ∨ d.mtype = 4
+  let conf := d.mtype = 4 ∨ d.mtype = 5
+  let c := d.fctrl
+  let bit (k : Nat) : Bool := c / 2 ^ k % 2 = 1
+  "{" ++ s!"t={d.mtype},up={bstr up},conf={bstr conf},addr={hexOrDash d.devAddr},fctrl={c},adr={bstr (bit 7)},adrackreq={bstr (up && bit 6)},ack={bstr (bit 5)},fpending={bstr (!up && bit 4)},foptslen={c % 16},fcnt={d.fcnt},fopts={hexOrDash d.fopts},fport={optNat d.fport},mic={hexOrDash d.mic},vmic={bstr (d.mic == [0, 0, 0, 0])}" ++ "}"
+
+def specData (b : List Nat) : String :=
+  match Spec.Frame.parseData b with
+  | .error e => "ERR:" ++ e
+  | .ok d => specShowData d
+
+/-- decrypt_in_place needs the key selected by the FPort only when there is an FRMPayload to decrypt -/
+def specDec (b : List Nat) (nwk app : Bool) : String :=
+  match Spec.Frame.parseData b with
+  | .error e => "ERR:" ++ e
+  | .ok d =>
+    let needApp : Bool := match d.fport with | some p => p != 0 | none => false
+    if d.frmLen > 0 ∧ ¬ (if needApp then app else nwk) then "ERR:MissingKey"
+    else
+      let kind := match d.fport with | none => "N" | some 0 => "M" | some _ => "D"
+      "{" ++ s!"fport={optNat d.fport},kind={kind},len={d.frmLen},outside=1" ++ "}"
+
+def specShowCf : Spec.Frame.CfList → String
+  | .absent => "none"
+  | .rfu => "none"
+  | .dynamic fs => "dyn:" ++ "/".intercalate (fs.map hexOrDash)
+  | .fixed m => "fixed:" ++ hexOrDash m
+
+def specJr (b : List Nat) : String :=
+  match Spec.Frame.parseJoinRequest b with
+  | .error e => "ERR:" ++ e
+  | .ok () =>
+    let mic := Spec.Frame.sub b 19 4
+    "{" ++ s!"join_eui={hexOrDash (Spec.Frame.sub b 1 8)},dev_eui={hexOrDash (Spec.Frame.sub b 9 8)},dev_nonce={hexOrDash (Spec.Frame.sub b 17 2)},mic={hexOrDash mic},vmic={bstr (mic == [0, 0, 0, 0])}" ++ "}"
+
+def specJa (b : List Nat) : String :=
+  match Spec.Frame.parseJoinAccept b with
+  | .error e => "ERR:" ++ e
+  | .ok () => "ok"
+
+def specJad (b : List Nat) : String :=
+  match Spec.Frame.parseJoinAccept b with
+  | .error e => "ERR:" ++ e
+  | .ok () =>
+    let p := b.take 1 ++ Spec.Frame.unwrapBlocks toyEnc 3 (b.drop 1)
+    let v := Spec.Frame.joinAcceptFields p
+    "{" ++ s!"join_nonce={hexOrDash v.joinNonce},net_id={hexOrDash v.netId},dev_addr={hexOrDash v.devAddr},dl={v.dlSettings},rxdelay={v.rxDelay},cflist={specShowCf v.cfList},mic={hexOrDash v.mic},vmic={bstr (v.mic == [0, 0, 0, 0])},keys=ok" ++ "}"
+
+def specFrame (b : List Nat) : String :=
+  s!"parse={Spec.Frame.classify b} data={specData b} dec={specDec b true true}/{specDec b true false}/{specDec b false true}/{specDec b false false} jr={specJr b} ja={specJa b} jad={specJad b}"
+
+end Frames
+
+def handle (ws : List String) : String :=
+  match ws with
+  | ["iter", set, hex] =>
+    match tableOf? set, Spec.MacCmd.setByName set, natsOfHex? hex with
+    | some T, some S, some d => s!"{modelIter T d}|{specIter S d}"
+    | _, _, _ => "bad-op"
+  | ["iter_digest", set, pre, k] =>
+    match tableOf? set, Spec.MacCmd.setByName set, natsOfHex? pre, k.toNat? with
+    | some T, some S, some p, some k =>
+      if k > 3 then "bad-op"
+      else s!"{hex64 (digestAll (modelIter T) p k {}).h}|{hex64 (digestAll (specIter S) p k {}).h}"
+    | _, _, _, _ => "bad-op"
+  | ["frame", hex] =>
+    match natsOfHex? hex with
+    | some d => s!"{modelFrame d}|{specFrame d}"
+    | none => "bad-op"
+  | ["frame_digest", pre, k] =>
+    match natsOfHex? pre, k.toNat? with
+    | some p, some k =>
+      if k > 2 then "bad-op"
+      else s!"{hex64 (digestAll modelFrame p k {}).h}|{hex64 (digestAll specFrame p k {}).h}"
+    | _, _ => "bad-op"
+  | ["new", set, ty, hex] =>
+    match tableOf? set, Spec.MacCmd.setByName set, natsOfHex? hex with
+    | some T, some S, some d => s!"{modelNew T ty d}|{specNew S ty d}"
+    | _, _, _ => "bad-op"
+  | _ => "bad-op"
 
 end Driver.C03
